@@ -191,3 +191,254 @@ Proof.
   - destruct (bool_decide_reflect (x ∈ event_targets sv ev)) as [H1|H1]; [|reflexivity].
     destruct (alive s x) eqn:H2; [|reflexivity]. exfalso. apply Hnin, Hiff. auto.
 Qed.
+
+(* ---------------------------------------------------------------- 0<->1 transitions: requests *)
+Lemma step_message_idle s c x f b m :
+  handle (m_init s) c x f b = Done m -> mw m = work0 ->
+  step s (Message c x) f b = Done (ms m, mo m).
+Proof.
+  intros H Hw. rewrite step_unfold. cbn [step_handler]. fold (m_init s). rewrite H.
+  rewrite settle_idle by exact Hw. reflexivity.
+Qed.
+
+Lemma svc_by_cookie_Some s c k sv : svc_by_cookie s c = Some (k, sv) ->
+  svcs s !! k = Some sv /\ s_cookie sv = c.
+Proof.
+  unfold svc_by_cookie. destruct (list_find _ _) as [[i [k' sv']]|] eqn:E; cbn; [|discriminate].
+  intros [= -> ->]. apply list_find_Some in E as (E1 & E2 & _).
+  apply elem_of_list_lookup_2, elem_of_map_to_list in E1. cbn in E2.
+  apply bool_decide_unpack in E2. auto.
+Qed.
+
+Lemma gate_pass m c cs minv k : conns (ms m) !! c = Some cs -> minv <= cs_ver cs -> gate m c minv k = k m.
+Proof.
+  intros H Hv. unfold gate, ver_of. rewrite H. cbn.
+  destruct (N.ltb_spec (cs_ver cs) minv); [lia|reflexivity].
+Qed.
+
+Lemma handle_SubscribeEvent m c cs serial sc ev f b : conns (ms m) !! c = Some cs ->
+  handle m c (SubscribeEvent (Some serial) sc ev) f b =
+      match svc_by_cookie (ms m) sc with
+      | None => send m c (SubscribeEventReply serial false) None
+      | Some (k, s) =>
+          match owner_of_svc (ms m) k with
+          | None => Panic 27
+          | Some owner =>
+              send m c (SubscribeEventReply serial true) None >>> fun m1 =>
+              let first := negb (bool_decide (is_Some (s_events s !! ev))) in
+              let set := default ∅ (s_events s !! ev) ∪ {[c]} in
+              let m2 := m1 <| ms; svcs ::= <[k := s <| s_events ::= <[ev := set]> |>]> |> in
+              if first && has m2 owner then send_ignore m2 owner (SubscribeEvent None sc ev) None else Done m2
+          end
+      end.
+Proof. intros H. unfold handle. rewrite H. reflexivity. Qed.
+
+Lemma handle_UnsubscribeEvent m c cs sc ev f b : conns (ms m) !! c = Some cs ->
+  handle m c (UnsubscribeEvent sc ev) f b =
+      match svc_by_cookie (ms m) sc with
+      | None => Done m
+      | Some (k, s) =>
+          match owner_of_svc (ms m) k, s_events s !! ev with
+          | None, _ => Panic 28
+          | Some owner, None => Done m
+          | Some owner, Some set0 =>
+              let set := set0 ∖ {[c]} in
+              if bool_decide (set = ∅) then
+                let m1 := m <| ms; svcs ::= <[k := s <| s_events ::= delete ev |>]> |> in
+                send_or_remove m1 owner (UnsubscribeEvent sc ev) None
+              else Done (m <| ms; svcs ::= <[k := s <| s_events ::= <[ev := set]> |>]> |>)
+          end
+      end.
+Proof. intros H. unfold handle. rewrite H. reflexivity. Qed.
+
+Lemma handle_SubscribeAllEvents m c cs serial sc f b : conns (ms m) !! c = Some cs -> 18 <= cs_ver cs ->
+  handle m c (SubscribeAllEvents (Some serial) sc) f b =
+            match svc_by_cookie (ms m) sc with
+            | None => send m c (SubscribeAllEventsReply serial SAInvalid) None
+            | Some (k, s) =>
+                match owner_of_svc (ms m) k with
+                | None => Panic 35
+                | Some owner =>
+                    match conns (ms m) !! owner with
+                    | None => Panic 36
+                    | Some ocs =>
+                        if negb (default false (i_sub_all (s_info s))) || (cs_ver ocs <? MIN_SUBSCRIBE_ALL_EVENTS_OWNER)
+                        then send m c (SubscribeAllEventsReply serial SANotSupported) None
+                        else send m c (SubscribeAllEventsReply serial SAOk) None >>> fun m1 =>
+                             let was_empty := bool_decide (s_all s = ∅) in
+                             let m2 := m1 <| ms; svcs ::= <[k := s <| s_all ::= fun x => {[c]} ∪ x |>]> |> in
+                             if was_empty then send_ignore m2 owner (SubscribeAllEvents None sc) None else Done m2
+                    end
+                end
+            end.
+Proof.
+  intros H Hv. unfold handle. rewrite H.
+  rewrite (gate_pass m c cs) by (try exact H; change MIN_SUBSCRIBE_ALL_EVENTS with 18; exact Hv). reflexivity.
+Qed.
+
+Lemma handle_UnsubscribeAllEvents m c cs serial sc f b : conns (ms m) !! c = Some cs -> 18 <= cs_ver cs ->
+  handle m c (UnsubscribeAllEvents serial sc) f b =
+        let reply r := match serial with Some serial => send m c (UnsubscribeAllEventsReply serial r) None | None => Done m end in
+        match svc_by_cookie (ms m) sc with
+        | None => reply SAInvalid
+        | Some (k, s) =>
+            match owner_of_svc (ms m) k with
+            | None => Panic 37
+            | Some owner =>
+                match conns (ms m) !! owner with
+                | None => Panic 38
+                | Some ocs =>
+                    if cs_ver ocs <? MIN_UNSUBSCRIBE_ALL_EVENTS_OWNER then reply SANotSupported else
+                    reply SAOk >>> fun m1 =>
+                    let was_empty := bool_decide (s_all s = ∅) in
+                    let all' := s_all s ∖ {[c]} in
+                    let m2 := m1 <| ms; svcs ::= <[k := s <| s_all := all' |>]> |> in
+                    if negb was_empty && bool_decide (all' = ∅)
+                    then send_ignore m2 owner (UnsubscribeAllEvents None sc) None else Done m2
+                end
+            end
+        end.
+Proof.
+  intros H Hv. unfold handle. rewrite H.
+  rewrite (gate_pass m c cs) by (try exact H; change MIN_UNSUBSCRIBE_ALL_EVENTS with 18; exact Hv). reflexivity.
+Qed.
+
+(* send_ignore to a connected peer: one output iff its receiver is alive, never any work *)
+Lemma send_ignore_connected m c x from cs : conns (ms m) !! c = Some cs ->
+  send_ignore m c x from = Done (m <| mo := mo m ++ (if cs_alive cs then [(c, x, from)] else []) |>).
+Proof.
+  intros H. destruct (cs_alive cs) eqn:E.
+  - apply (send_ignore_alive m c x from cs H E).
+  - rewrite (send_ignore_dead m c x from cs H E). rewrite app_nil_r. destruct m; reflexivity.
+Qed.
+
+(* SubscribeEvent: the requester is accepted iff the cookie names a service; the owner is told to
+   start producing the event iff the event had no entry before (and the owner's receiver is
+   alive: the broker ignores a failed send here) *)
+Theorem subscribe_event_step s c cs serial sc ev f b k sv owner :
+  conns s !! c = Some cs -> cs_alive cs = true ->
+  svc_by_cookie s sc = Some (k, sv) -> owner_of_svc s k = Some owner ->
+  step s (Message c (SubscribeEvent (Some serial) sc ev)) f b =
+    Done (s <| svcs ::= <[k := sv <| s_events ::= <[ev := default ∅ (s_events sv !! ev) ∪ {[c]}]> |>]> |>,
+          (c, SubscribeEventReply serial true, None) ::
+          (if bool_decide (s_events sv !! ev = None) && alive s owner
+           then [(owner, SubscribeEvent None sc ev, None)] else [])).
+Proof.
+  intros Hc Hal Hs Ho.
+  set (s1 := s <| svcs ::= <[k := sv <| s_events ::= <[ev := default ∅ (s_events sv !! ev) ∪ {[c]}]> |>]> |>).
+  set (o1 := (c, SubscribeEventReply serial true, None) :: _).
+  assert (H : handle (m_init s) c (SubscribeEvent (Some serial) sc ev) f b = Done {| ms := s1; mw := work0; mo := o1 |}).
+  { rewrite (handle_SubscribeEvent _ c cs) by exact Hc. cbn [ms m_init]. rewrite Hs, Ho.
+    erewrite send_alive by eassumption. cbn [andThen]. cbv zeta. subst o1. unfold alive, has. cbn [ms set].
+    change (conns (set svcs _ s)) with (conns s).
+    destruct (s_events sv !! ev) as [set0|] eqn:Eev.
+    - rewrite (bool_decide_eq_true_2 (is_Some (Some set0))) by eauto.
+      rewrite (bool_decide_eq_false_2 (Some set0 = None)) by discriminate. reflexivity.
+    - rewrite (bool_decide_eq_false_2 (is_Some None)) by (intros [? ?]; discriminate).
+      rewrite (bool_decide_eq_true_2 (None = None)) by reflexivity. cbn [negb andb].
+      destruct (conns s !! owner) as [ocs|] eqn:Eo.
+      + rewrite bool_decide_eq_true_2 by eauto.
+        erewrite send_ignore_connected by (cbn; exact Eo). destruct (cs_alive ocs); reflexivity.
+      + rewrite bool_decide_eq_false_2 by (intros [? ?]; discriminate). reflexivity. }
+  apply step_message_idle in H; [exact H|reflexivity].
+Qed.
+
+Theorem subscribe_event_invalid s c cs serial sc ev f b :
+  conns s !! c = Some cs -> cs_alive cs = true -> svc_by_cookie s sc = None ->
+  step s (Message c (SubscribeEvent (Some serial) sc ev)) f b =
+    Done (s, [(c, SubscribeEventReply serial false, None)]).
+Proof.
+  intros Hc Hal Hs.
+  assert (H : handle (m_init s) c (SubscribeEvent (Some serial) sc ev) f b =
+              Done (m_init s <| mo := [(c, SubscribeEventReply serial false, None)] |>)).
+  { rewrite (handle_SubscribeEvent _ c cs) by exact Hc. cbn [ms m_init]. rewrite Hs.
+    erewrite send_alive by eassumption. reflexivity. }
+  apply step_message_idle in H; [exact H|reflexivity].
+Qed.
+
+(* UnsubscribeEvent: the owner is told to stop iff the event's subscriber set becomes empty *)
+Theorem unsubscribe_event_step s c cs sc ev f b k sv owner ocs set0 :
+  conns s !! c = Some cs ->
+  svc_by_cookie s sc = Some (k, sv) -> owner_of_svc s k = Some owner ->
+  s_events sv !! ev = Some set0 ->
+  conns s !! owner = Some ocs -> cs_alive ocs = true ->
+  step s (Message c (UnsubscribeEvent sc ev)) f b =
+    if bool_decide (set0 ∖ {[c]} = ∅)
+    then Done (s <| svcs ::= <[k := sv <| s_events ::= delete ev |>]> |>, [(owner, UnsubscribeEvent sc ev, None)])
+    else Done (s <| svcs ::= <[k := sv <| s_events ::= <[ev := set0 ∖ {[c]}]> |>]> |>, []).
+Proof.
+  intros Hc Hs Ho Hev Hoc Hoa.
+  assert (H : handle (m_init s) c (UnsubscribeEvent sc ev) f b =
+    if bool_decide (set0 ∖ {[c]} = ∅)
+    then Done {| ms := s <| svcs ::= <[k := sv <| s_events ::= delete ev |>]> |>; mw := work0;
+                 mo := [(owner, UnsubscribeEvent sc ev, None)] |}
+    else Done {| ms := s <| svcs ::= <[k := sv <| s_events ::= <[ev := set0 ∖ {[c]}]> |>]> |>; mw := work0; mo := [] |}).
+  { rewrite (handle_UnsubscribeEvent _ c cs) by exact Hc. cbn [ms m_init]. rewrite Hs, Ho, Hev. cbv zeta.
+    destruct (bool_decide (set0 ∖ {[c]} = ∅)); [|reflexivity].
+    erewrite send_or_remove_alive by (try exact Hoa; cbn; exact Hoc). reflexivity. }
+  destruct (bool_decide (set0 ∖ {[c]} = ∅)); apply step_message_idle in H; try exact H; reflexivity.
+Qed.
+
+(* ... and nothing at all happens for an unknown cookie or an event nobody is subscribed to *)
+Theorem unsubscribe_event_noop s c cs sc ev f b :
+  conns s !! c = Some cs ->
+  (svc_by_cookie s sc = None \/
+   exists k sv owner, svc_by_cookie s sc = Some (k, sv) /\ owner_of_svc s k = Some owner /\ s_events sv !! ev = None) ->
+  step s (Message c (UnsubscribeEvent sc ev)) f b = Done (s, []).
+Proof.
+  intros Hc Hcase.
+  assert (H : handle (m_init s) c (UnsubscribeEvent sc ev) f b = Done (m_init s)).
+  { rewrite (handle_UnsubscribeEvent _ c cs) by exact Hc. cbn [ms m_init].
+    destruct Hcase as [->|(k & sv & owner & -> & -> & ->)]; reflexivity. }
+  apply step_message_idle in H; [exact H|reflexivity].
+Qed.
+
+(* SubscribeAllEvents (accepted: the service supports it and the owner speaks version 18): the
+   owner is told iff nobody was subscribed to all events before *)
+Theorem subscribe_all_step s c cs serial sc f b k sv owner ocs :
+  conns s !! c = Some cs -> cs_alive cs = true -> 18 <= cs_ver cs ->
+  svc_by_cookie s sc = Some (k, sv) -> owner_of_svc s k = Some owner -> conns s !! owner = Some ocs ->
+  i_sub_all (s_info sv) = Some true -> 18 <= cs_ver ocs ->
+  step s (Message c (SubscribeAllEvents (Some serial) sc)) f b =
+    Done (s <| svcs ::= <[k := sv <| s_all ::= fun x => {[c]} ∪ x |>]> |>,
+          (c, SubscribeAllEventsReply serial SAOk, None) ::
+          (if bool_decide (s_all sv = ∅) && cs_alive ocs then [(owner, SubscribeAllEvents None sc, None)] else [])).
+Proof.
+  intros Hc Hal Hv Hs Ho Hoc Hsub Hov.
+  set (s1 := s <| svcs ::= _ |>). set (o1 := _ :: _).
+  assert (H : handle (m_init s) c (SubscribeAllEvents (Some serial) sc) f b = Done {| ms := s1; mw := work0; mo := o1 |}).
+  { rewrite (handle_SubscribeAllEvents _ c cs) by assumption. cbn [ms m_init]. rewrite Hs, Ho, Hoc, Hsub.
+    cbn [default negb orb]. change MIN_SUBSCRIBE_ALL_EVENTS_OWNER with 18.
+    destruct (N.ltb_spec (cs_ver ocs) 18) as [?|_]; [lia|].
+    erewrite send_alive by eassumption. cbn [andThen]. cbv zeta. subst o1.
+    destruct (bool_decide (s_all sv = ∅)); [|reflexivity].
+    erewrite send_ignore_connected by (cbn; exact Hoc). destruct (cs_alive ocs); reflexivity. }
+  apply step_message_idle in H; [exact H|reflexivity].
+Qed.
+
+(* UnsubscribeAllEvents (accepted): the owner is told iff the set was non-empty and becomes empty *)
+Theorem unsubscribe_all_step s c cs serial sc f b k sv owner ocs :
+  conns s !! c = Some cs -> (serial <> None -> cs_alive cs = true) -> 18 <= cs_ver cs ->
+  svc_by_cookie s sc = Some (k, sv) -> owner_of_svc s k = Some owner -> conns s !! owner = Some ocs ->
+  18 <= cs_ver ocs ->
+  step s (Message c (UnsubscribeAllEvents serial sc)) f b =
+    Done (s <| svcs ::= <[k := sv <| s_all := s_all sv ∖ {[c]} |>]> |>,
+          (match serial with Some n => [(c, UnsubscribeAllEventsReply n SAOk, None)] | None => [] end) ++
+          (if negb (bool_decide (s_all sv = ∅)) && bool_decide (s_all sv ∖ {[c]} = ∅) && cs_alive ocs
+           then [(owner, UnsubscribeAllEvents None sc, None)] else [])).
+Proof.
+  intros Hc Hal Hv Hs Ho Hoc Hov.
+  set (s1 := s <| svcs ::= _ |>). set (o1 := _ ++ _).
+  assert (H : handle (m_init s) c (UnsubscribeAllEvents serial sc) f b = Done {| ms := s1; mw := work0; mo := o1 |}).
+  { rewrite (handle_UnsubscribeAllEvents _ c cs) by assumption. cbn [ms m_init]. cbv zeta. rewrite Hs, Ho, Hoc.
+    change MIN_UNSUBSCRIBE_ALL_EVENTS_OWNER with 18.
+    destruct (N.ltb_spec (cs_ver ocs) 18) as [?|_]; [lia|]. subst o1.
+    destruct serial as [n|].
+    - erewrite send_alive; [|exact Hc|apply Hal; discriminate]. cbn [andThen].
+      destruct (negb (bool_decide (s_all sv = ∅)) && bool_decide (s_all sv ∖ {[c]} = ∅)); [|reflexivity].
+      erewrite send_ignore_connected by (cbn; exact Hoc). destruct (cs_alive ocs); reflexivity.
+    - cbn [andThen].
+      destruct (negb (bool_decide (s_all sv = ∅)) && bool_decide (s_all sv ∖ {[c]} = ∅)); [|reflexivity].
+      erewrite send_ignore_connected by (cbn; exact Hoc). destruct (cs_alive ocs); reflexivity. }
+  apply step_message_idle in H; [exact H|reflexivity].
+Qed.
